@@ -165,6 +165,32 @@ def gen_master_locations(rnd, axes, n_extra, grid):
                 if rnd.random() < 0.7:
                     l[a["tag"]] = inter(a) if rnd.random() < 0.7 else rnd.choice([a["min"], a["max"]])
         locs.append(l)
+    mode = rnd.random()
+    if mode < 0.3:
+        # a chain of intermediate masters on one side of the default of one axis: evenly spaced, or closely spaced
+        # ("brace layer" style); fractional weights of earlier deltas then feed into later masters
+        cand = [a for a in axes if ends(a)]
+        if cand:
+            a = rnd.choice(cand)
+            side = rnd.choice(ends(a))
+            if rnd.random() < 0.5:
+                ts = [0.25, 0.5, 0.75]
+            else:
+                t0 = rnd.choice([0.2, 0.4, 0.6])
+                ts = [t0 + 0.025 * k for k in range(rnd.choice([3, 4]))]
+            for t in ts:
+                l = dict(default)
+                l[a["tag"]] = a["default"] + t * (side - a["default"])
+                locs.append(l)
+    elif mode < 0.6 and len([a for a in axes if ends(a)]) >= 2:
+        # two off-axis masters mirroring each other: (end, half) and (half, end) - equal tent triples on swapped axes
+        a1, a2 = rnd.sample([a for a in axes if ends(a)], 2)
+        e1, e2 = rnd.choice(ends(a1)), rnd.choice(ends(a2))
+        for (ax, vx), (ay, vy) in (((a1, e1), (a2, a2["default"] + 0.5 * (e2 - a2["default"]))),
+                                   ((a1, a1["default"] + 0.5 * (e1 - a1["default"])), (a2, e2))):
+            l = dict(default)
+            l[ax["tag"]], l[ay["tag"]] = vx, vy
+            locs.append(l)
     out, seen = [], set()
     for l in locs:
         k = tuple(sorted(l.items()))
@@ -343,6 +369,14 @@ def _fea(rnd, is_default, glyphs, with_caret, sparse_kern=False):
                     lines.append("  pos %s %s %d;" % (a, b, nz(v + rnd.randrange(-20, 21))))
         lines.append("  pos [A B] [C D] %d;" % nz(j(18)))
         pairs += [("A", "C"), ("B", "D"), ("A", "D"), ("B", "C")]
+        if has("E", "O"):
+            # further class-based subtables whose first-glyph coverage overlaps the one above (hand-written kerning
+            # with `subtable;` breaks: same left glyphs, other right classes); the first covering subtable wins
+            lines.append("  subtable;")
+            lines.append("  pos [A B E] [O D] %d;" % nz(j(-27)))
+            lines.append("  subtable;")
+            lines.append("  pos [B E O] [A C] %d;" % nz(j(33)))
+            pairs += [("A", "O"), ("B", "O"), ("E", "O"), ("E", "D"), ("E", "A"), ("O", "C"), ("B", "A"), ("E", "C")]
     if has("O", "E"):
         lines.append("  pos O E <%d %d %d 0>;" % (nz(j(12, 10)), nz(j(9, 8)), nz(j(-25, 20))))
         pairs.append(("O", "E"))
